@@ -86,6 +86,20 @@ for i in range(S.budget):
                 S.violation('C11:balance', f'at the returned speed {n} available - required power = {gap} kW', input=where)
         except IndexError:
             pass
+    # the shape premise of C11_power/torque_limited_not_above_set, sampled on 16 speeds of [0.15 n0, n0]: required power
+    # positive, P/Pavail not falling with speed, (P/Pavail)/n^4 not rising -- counted, not a violation when it fails
+    if mode in ('torque', 'power'):
+        n0 = p._current_speed
+        grid = [n0 * (0.15 ** (1 - k / 15)) for k in range(16)]
+        try:
+            ratio = [p.power_required(Q, x, water) / p.power_available(x) for x in grid]
+            ok = all(r > 0 for r in ratio) and all(ratio[k] <= ratio[k + 1] * (1 + 1e-12) for k in range(15)) and \
+                all(ratio[k + 1] / grid[k + 1] ** 4 <= ratio[k] / grid[k] ** 4 * (1 + 1e-12) for k in range(15))
+            S.count(None, f'shape-premise:{mode}:' + ('holds' if ok else 'fails'))
+            if ok and n > n0 * (1 + 1e-12):
+                S.violation('C11:theorem-contradicted', f'shape premise holds on the grid but the returned speed {n} exceeds {n0}', input=where)
+        except IndexError:
+            S.count(None, 'shape-premise:out-of-table')
     S.count(repr(where), f"{mode}:{'reduced' if n != p._current_speed else 'set-speed'}")
     if i == 0:
         S.sample(where)
